@@ -3,4 +3,5 @@ package props
 
 import (
 	_ "github.com/bandprotocol/chain/v3/zzverif/props/c01"
+	_ "github.com/bandprotocol/chain/v3/zzverif/props/c07"
 )
